@@ -154,7 +154,8 @@ class Helper:
                         and not _has(pre_, (ast.Yield, ast.YieldFrom)) and not _has([ast.Expr(value=last_.value.value)], (ast.Yield, ast.YieldFrom)):
                     temps = [x.targets[0].id for x in pre_]
                     uses = {t: sum(1 for x in lp.body for n in ast.walk(x) if isinstance(n, ast.Name) and n.id == t and isinstance(n.ctx, ast.Load)) for t in temps}
-                    if len(set(temps)) == len(temps) and not (set(temps) & (set(self.params) | tnames)) and all(u <= 1 for u in uses.values()):
+                    callfree = {x.targets[0].id: not any(isinstance(n, ast.Call) for n in ast.walk(x.value)) for x in pre_}
+                    if len(set(temps)) == len(temps) and not (set(temps) & (set(self.params) | tnames)) and all(u <= 1 or callfree[t] for t, u in uses.items()):
                         m = {}
                         for x in pre_:
                             m[x.targets[0].id] = _Subst(m).visit(copy.deepcopy(x.value))
@@ -739,6 +740,20 @@ class Inliner:
                     new = self.body_for(h, call, recv, target)
                     self.done.append((None, h.qual, 'statement'))
                     return self.block(new, depth + 1)
+            # `if A and H(x): BODY` (no else) with a statement helper H in a later operand is `if A: if H(x): BODY`: the helper call then is the
+            # operand that is always evaluated and can be hoisted
+            if isinstance(s, ast.If) and not s.orelse and isinstance(s.test, ast.BoolOp) and isinstance(s.test.op, ast.And):
+                vals = s.test.values
+                for i_ in range(1, len(vals)):
+                    hs = [c for c in self._hoistable_calls(vals[i_]) if (lambda h_: h_ is not None and not h_.is_gen and not h_.expr_simple)(self.helper_of(c)[0])]
+                    if hs:
+                        outer_t = vals[0] if i_ == 1 else ast.copy_location(ast.BoolOp(op=ast.And(), values=vals[:i_]), s.test)
+                        inner_t = vals[i_] if i_ == len(vals) - 1 else ast.copy_location(ast.BoolOp(op=ast.And(), values=vals[i_:]), s.test)
+                        inner = ast.copy_location(ast.If(test=inner_t, body=s.body, orelse=[]), s)
+                        s.test = outer_t
+                        s.body = [inner]
+                        s.body = self.block(s.body, depth + 1)
+                        return [s]
             # calls nested in the expressions of a simple statement / an if test: hoist
             if isinstance(s, (ast.Assign, ast.AugAssign, ast.Expr, ast.Return, ast.If)):
                 roots = [s.test] if isinstance(s, ast.If) else [x for x in ast.iter_child_nodes(s) if isinstance(x, ast.expr)]
